@@ -136,4 +136,5 @@ func TestReplay(t *testing.T) {
 		}
 	}
 	replayPipelines(t)
+	replayErrorPath(t)
 }
